@@ -1175,3 +1175,18 @@ CASES += [
     dict(name="mp-count-modulus-too-small", file="bin/weighted_model_count.rs", rule="MP", props=["C19"], expect="count-modulus",
          rename=[("U64_LARGEST", "U32_SMALL")]),
 ]
+
+CASES += [
+    dict(name="cm4-trim-two-elements-swapped", file="src/builder/sdd/compression.rs", rule="CM", props=["C04"], expect="canonicalize_base_case:CM4",
+         old="""            if self.is_true(node[0].sub()) && self.is_false(node[1].sub()) {
+                return Some(node[0].prime());""",
+         new="""            if self.is_true(node[0].sub()) && self.is_false(node[1].sub()) {
+                return Some(node[1].prime());"""),
+    dict(name="cm4-trim-single-any-prime", file="src/builder/sdd/compression.rs", rule="CM", props=["C04"], expect="canonicalize_base_case:CM4",
+         old="""            if self.is_true(node[0].prime()) {
+                return Some(node[0].sub());
+            }""",
+         new="""            if self.is_true(node[0].sub()) {
+                return Some(node[0].prime());
+            }"""),
+]
